@@ -284,3 +284,33 @@ PROPS['C01'] = dict(
     level_text='Unbounded theorem: for every committee, every Byzantine set below one third of the power and EVERY execution of the replica model under an adversary that owns the network, the timers, the root-chain notifications, the election and every leader, correct replicas never commit different (block, results) pairs; commits are final and certified. The proof found two further forks in the model, one of which was replayed on the real replicas and both fixed; the model is compared with real bft.BFT replicas action by action on scripted attacks and random adversarial runs on every check.',
     level_note='Trusted: Coq kernel, hand-written mirror tied by correspondence, ideal signatures and hashes, monotone root heights. Committee-changing root updates are outside the property. Five genuine defects were repaired (KNOWN_FINDINGS.txt); the theorem holds of the repaired code only (the old variants are proved to fork).',
 )
+
+PROPS['C06'] = dict(
+    props='props/C06.v',
+    models=['Proto', 'Replay', 'ReplayCheck'],
+    harness='c06',
+    args=dict(quick=['-proto', '400', '-chains', '3', '-blocks', '14'], escalated=['-proto', '1200', '-chains', '8', '-blocks', '18'],
+              thorough=['-proto', '6000', '-chains', '40', '-blocks', '24']),
+    fingerprint_groups=['Replay'],
+    rule='(proto) real transactions of all message kinds from the stateful generator and wire-level variants of them - appended explicit '
+         'defaults, re-ordered and repeated fields, non-minimal varints in tags / lengths / values, ten-byte varints, a sub-message split into '
+         'two occurrences, wrong wire types, unknown fields, truncations, bit flips, and combinations - are decoded by the REAL lib.Unmarshal, '
+         're-marshalled, and their sign bytes taken; model/Proto.v decodes the same bytes in Coq and must produce the same transaction, the same '
+         'canonicity verdict and the same sign bytes (M). (chain) a real chain on a real FSM and store: transfers signed by BLS keys and by an ETH '
+         'secp256k1 key are included; at later heights the identical bytes, content-preserving re-encodings, the 65-byte representation of the ETH '
+         'key, the same bytes on a node of another chain id, and the originals far outside the acceptance window are offered; executed or not is '
+         'recorded with everything executed before: an executed byte string must be acceptable to the model (M) and must not carry the signed '
+         'content of anything executed before, nor another chain / network id (V); non-trivial: byte strings that were executed',
+    modelled='hand-modelled: the protobuf wire format of lib.Transaction (permissive decoder with last-wins / merge semantics and unknown-field '
+             'rejection, canonical encoder, sign bytes), CheckTx\'s canonical-encoding check, CheckReplay (ids, hash lookup, window), CheckSignature\'s '
+             'canonical-key check, same-block de-duplication, the never-pruned transaction index. Parameters (hypotheses, never axioms): signature '
+             'verification, canonical key representation. Not modelled: the nonce-based replay floor of RLP-wrapped Ethereum transactions (RLPV2), '
+             'mempool-level de-duplication, fees / authorization (C05).',
+    assumptions=['the transaction hash is collision-free', 'a public key has exactly one canonical byte representation (enforced since the second C06 fix)',
+                 'signatures are not malleable by third parties (BLS: unique; ed25519 and secp256k1: the libraries reject non-canonical S)',
+                 'the transaction index is never pruned', 'strings are ASCII in the correspondence run (proto3 strings must be valid UTF-8)'],
+    trusted_base=['model/Proto.v is a hand-written mirror of the protobuf decoding / encoding of lib.Transaction tied by the differential run against the real library on mutated encodings',
+                  'model/Replay.v mirrors CheckTx / CheckReplay / ApplyTransactions de-duplication, tied by the chain-mode run'],
+    level_text='Unbounded theorems: along any chain and for any byte strings offered at any heights, no signed content (sign bytes, signer key, signature) is executed twice, executed transactions carry this network and chain id and lie inside the creation-height window; the canonical encoding is a bijection (decode after encode is the identity, at most one canonical byte string per transaction, sign bytes determine the content). The protobuf model is compared with the real library on mutated encodings and the replay model with a real chain on every check. Two replay vectors were found and repaired (KNOWN_FINDINGS.txt). Partial: nonce-based RLPV2 transactions are outside the model.',
+    level_note='Trusted: Coq kernel, the hand-written protobuf mirror tied by differential testing, ideal hash, crypto assumptions listed. RLPV2 (Ethereum nonce) path not modelled.',
+)
